@@ -199,6 +199,7 @@ if (jj == BADCOL)
 			/*Gstat->procstat[pnum].unpruned++;*/
 #endif		    
 		    }
+		    SLU_MT_VERIF_EVENT(SLU_EV_DFS_SNODE, pnum, jj, krep, ispruned[krep], 0);
 #ifdef CHK_DFS
 if (jj == BADCOL)		    
 {
@@ -272,6 +273,7 @@ if (jj == BADCOL)
 					    /*procstat[pnum].unpruned++;*/
 #endif		    
 					}
+					SLU_MT_VERIF_EVENT(SLU_EV_DFS_SNODE, pnum, jj, krep, ispruned[krep], 0);
 #ifdef CHK_DFS
 if (jj == BADCOL)
     printf("(%d) pzgstrf_panel_dfs[4] %d, ispruned[%d] %d, xdfs %d, maxdfs %d\n",
@@ -291,6 +293,7 @@ if (jj == BADCOL)
 			 *    "repfnz[krep]" may change later.)
 			 *    Backtrack dfs to its parent.
 			 */
+			SLU_MT_VERIF_EVENT(SLU_EV_DFS_LEAVE, pnum, jj, krep, 0, 0);
 			if ( marker1[krep] != jcol ) {
 			    segrep[*nseg] = krep;
 			    ++(*nseg);
